@@ -74,3 +74,12 @@ CLAIMS["C11"] = ("proof",
     _TB + "thewalrus.symplectic helpers are executable models written from its documentation (conformance-tested natively); "
     "ops.GaussianTransform.__init__ is a contract stub. gaussian_merge (DAG surgery) is not covered.",
     "deductive verification: VCs from the real source + z3/cvc5", "DESIGN.md 5/C11")
+CLAIMS["C17"] = ("other",
+    "Helper lemmas PROVED for all values: T and Ti have the documented 2x2 block and are the identity elsewhere for every matrix "
+    "size; T.Ti = Ti.T = I; mach_zehnder equals its documented closed form and MZ.MZinv = I; nullT/nullTi (all three branches) "
+    "and the zero branches of nullMZ/nullMZi make the targeted element exactly zero with an adjacent in-range mode pair; "
+    "non-square input rejected. Whole routines are a BOUNDED stand-in (structured families, sizes 2..4 quick / 2..7 thorough): "
+    "every mesh through Interferometer.decompose folded with independently defined gate unitaries, driver structure, takagi, "
+    "williamson, bloch_messiah, graph_embed. F26 found and repaired; F34 (bloch_messiah) and F39 (sun_compact) are open findings.",
+    _TB + "LAPACK-based routines and the general branch of nullMZ/nullMZi are bounded only; np.round(x,14) treated as x.",
+    "deductive VCs (NRA with transcendental abstraction) for helper lemmas + bounded numeric stand-in for whole routines", "DESIGN.md 5/C17")
